@@ -89,7 +89,7 @@ def run(ctx):
     for rd in range(2 if quick else 10):
         sess = markers.Session(h)
         keys = markers.Keys(sess.p)
-        regs, _ = c02.build_history(ctx, sess, 100 if quick else 250, 150 if quick else 500)
+        regs, _ = c02.build_history(ctx, sess, 100 if quick else 250, 150 if quick else 500, battery=(rd == 0))
         c20.extend_history(ctx, sess, regs, 60 if quick else 200)
         for _ in range(350 if quick else 1500):
             try:
